@@ -15,7 +15,7 @@ extern UINT64 of_seed;
 #define TOTAL ((uint64_t) 0x7FFFFFFE)	/* cycle length */
 #define NARCS 256
 
-static uint64_t MAXV[96]; static int NMAXV;
+static uint64_t MAXV[256]; static int NMAXV;
 static int st_states, st_trans, st_exec, st_dn, st_seedchk;
 static uint64_t arc_start[NARCS + 1];
 
